@@ -53,6 +53,7 @@ def mustSplit (a b : Kind) (aggFollows : Bool) : Bool :=
   | .Aggregate, .Join | .Aggregate, .Aggregate | .Aggregate, .Compute => true
   | .Aggregate, _ => false
   | .Take, .Join | .Take, .Compute | .Take, .Filter | .Take, .Aggregate | .Take, .Sort => true
+  | .Take, .Distinct | .Take, .DistinctOn => true      -- DISTINCT is applied before LIMIT
   | .Take, _ => false
   | .Distinct, .Join | .Distinct, .Compute | .Distinct, .Filter | .Distinct, .Aggregate
   | .Distinct, .Sort | .Distinct, .Take => true
@@ -69,5 +70,12 @@ def mustSplit (a b : Kind) (aggFollows : Bool) : Bool :=
   | .Intersect, .Join | .Intersect, .Compute | .Intersect, .Filter | .Intersect, .Aggregate
   | .Intersect, .Sort | .Intersect, .Take | .Intersect, .Distinct => true
   | .Intersect, _ => false
+
+/-- pairs the table of the unchanged tree does NOT split although clause order demands it
+(a genuine defect, see known_findings.json `take-then-distinct-in-one-select`) -/
+def knownGap (a b : Kind) : Bool :=
+  match a, b with
+  | .Take, .Distinct | .Take, .DistinctOn => true
+  | _, _ => false
 
 end Model.Split
